@@ -28,9 +28,20 @@ chk("C15", "exploration", "All classes of <=K items x ^ x i against all 128 Basi
 chk("C16", "exploration", "Every budget n in 1..c+1 for every enumerated grammar (incl. non-terminating ones), input and option set: returns, evaluates <= n expressions, reports the budget error iff exhausted, otherwise equals the unbounded run.", E1NOTE + " Tick cap stands in for 'does not return'.", "bounded exhaustive enumeration of grammars x inputs x option sets x all budgets on the real runtime", "4.C16")
 chk("C17", "exploration", "All byte strings up to length L over 10 bytes covering every malformed-UTF-8 shape x enumerated grammars x AllowInvalidUTF8: values/offsets exact, set of 'invalid encoding' error positions equals the set of invalid bytes advanced onto (independent RFC 3629 decoder).", E1NOTE, T_ENUM, "4.C17")
 
+
+HOOKNOTE = "Trusted: the hook server (/repo/verif_hook.go, tag verif) calling the working tree's ParseReader / ast.Optimize / builder / main(); the reference AST printer engine/peg."
+chk("C03", "exploration", "Every reference AST up to N nodes (all expression kinds) in the canonical spelling, with every single spelling deviation (15 dimensions) and every pair for tiny ASTs, is parsed by the real front-end; the AST dump incl. the position of every node must equal the AST the text denotes, and print->parse round-trips.", HOOKNOTE, "bounded exhaustive enumeration of ASTs x spelling deviations (deviation bound 1-2) against the real front-end", "4.C03")
+chk("C04", "exploration", "Naming, scoping and Unicode-class families: every emitted text is checked structurally (one method per block, no duplicate names/parameters, parameters = labels of the block's scope), and a systematic batch x flag combinations goes through the real main(), gofmt, go build, go vet and a binary that initialises every package and parses once.", HOOKNOTE + " The Go toolchain judges 'compiles and vets'.", "bounded exhaustive enumeration of grammars x flag sets; emitted code judged by go/parser structural checks and the real go build / go vet", "4.C04")
+chk("C07", "exploration", "Every rule-reference graph of the stated family (1-3 rules, every nullable / non-nullable / lookahead prefix before every kind of reference) is analysed by the real PrepareGrammar and compared with ground truth inside the bounds (reference interpreter re-entry witness over all short inputs) and with an independent static analysis; misses are confirmed on the generated parser.", HOOKNOTE, "bounded exhaustive enumeration of grammars; verdict of the real analysis vs dynamic witness search over all short inputs", "4.C07")
+chk("C08", "exploration", "Direct left-recursive rules over all tails/bases of the alphabet, expr/term/factor towers and single-cycle indirect pairs x all inputs up to L x Memoize x -optimize-parser are compared with the seed-growing denotation (= base followed by greedily repeated tails, left-nested): value, prefix, errors, final store, termination.", E1NOTE, T_ENUM, "4.C08")
+chk("C13", "exploration", "The real main() is driven with every valid text of a 3-node AST family x all 32 flag combinations, every single-token edit of a 40-text corpus and EVERY short byte string: terminates, no escaping panic, exit status consistent with output and diagnostics, rejected text never exits 0; a sample is replayed through the real binary.", HOOKNOTE, "bounded exhaustive enumeration of byte strings / token edits / valid texts x flag sets through the real main()", "4.C13")
+chk("C14", "exploration", "All expressions with throws and recovery operators up to N nodes (nesting, shared labels, throws in called rules, repetitions, predicates, recovery expressions that fail or throw again) x all inputs up to L are compared with a reference interpreter that keeps an explicit dynamic handler stack.", E1NOTE, T_ENUM, "4.C14")
+chk("C20", "exploration", "(a) every text of the bootstrap-subset AST family (plus single spelling deviations) that the hand-written bootstrap front-end accepts must be accepted by the generated front-end with a structurally identical AST; (b) make -B all in a scratch copy re-runs the three bootstrap stages and regenerates every artifact, all must be byte-identical.", HOOKNOTE + " bootstrap.Parser linked as a library; GNU make runs the Makefile's own recipes.", "bounded exhaustive enumeration of texts (two real front-ends compared) + complete regeneration of the finite artifact set", "4.C20")
+
 ALL = [f"C{i:02d}" for i in range(1, 21)]
 na = [dict(property_id=p, reason="check not built yet in this revision (planned in DESIGN.md section 4)") for p in ALL if p not in checks]
 hook_commits = subprocess.run(['git','-C','/repo','log','--format=%H','--grep=^verif hook'],capture_output=True,text=True).stdout.split()
+fix_commits = subprocess.run(['git','-C','/repo','log','--format=%h %s','--grep=^fix:'],capture_output=True,text=True).stdout.strip().split('\n')
 m = dict(version=1,
     setup_cmd="./run.sh setup",
     hooks=dict(guard="verif", enable="go build -tags verif -o build/bin/pigeon-verif /repo  (then PIGEON_VERIF_SERVE=1 serves requests)",
@@ -42,6 +53,6 @@ m = dict(version=1,
     ],
     checks=[checks[k] for k in sorted(checks)],
     not_applicable=na,
-    notes="All checks are exhaustive enumerations of explicitly bounded spaces; see DESIGN.md.")
+    notes="All checks are exhaustive enumerations of explicitly bounded spaces; see DESIGN.md. Repairs of genuine defects committed to /repo: " + "; ".join(fix_commits))
 json.dump(m, open('MANIFEST.json','w'), indent=1)
 print("checks:", sorted(checks), "na:", len(na))
